@@ -39,6 +39,12 @@ theorem kinv_step {cfg : Cfg} (hgood : Good cfg) {s s' : State} (a : Action) (hI
   have nokey : ∀ {x : Caller} {p : PC}, pcKey x.pc = none → ∀ k, pcKey x.pc = some k → pcKey p = some k := by
     intro x p hn k hk; rw [hn] at hk; cases hk
   cases a with
+  | closeDC =>
+    simp only [step] at h
+    split at h
+    · cases h
+    · cases h
+      exact ⟨hI.rd_reqs, hI.rd_inbox, hI.disj, hI.nd_reqs, hI.nd_inbox, hI.lt_reqs, hI.lt_inbox⟩
   | start i =>
     simp only [step, markDeadCfg_good hgR, hgB, hgT, if_true] at h
     split at h
@@ -153,6 +159,11 @@ theorem kinv_step {cfg : Cfg} (hgood : Good cfg) {s s' : State} (a : Action) (hI
               exact kinv_keep (t := { s with conns := s.conns.set d _ })
                 ⟨hI.rd_reqs, hI.rd_inbox, hI.disj, hI.nd_reqs, hI.nd_inbox, hI.lt_reqs, hI.lt_inbox⟩ i x _ hx (nokey hnk)
             · cases h
+          | dc =>
+            simp only at h
+            split at h
+            · cases h; exact kinv_keep hI i x _ hx (nokey hnk)
+            · cases h
         · cases h
       · cases h
     · cases h
@@ -182,6 +193,12 @@ theorem kinv_step {cfg : Cfg} (hgood : Good cfg) {s s' : State} (a : Action) (hI
             exact kinv_keep hI i x _ hx (by intro k' hk'; rw [hxk] at hk'; cases hk'; rfl)
           · cases h
         | ctx =>
+          simp only at h
+          split at h
+          · cases h
+            exact kinv_keep hI i x _ hx (by intro k' hk'; rw [hxk] at hk'; cases hk'; rfl)
+          · cases h
+        | dc =>
           simp only at h
           split at h
           · cases h
